@@ -14,9 +14,12 @@
 //! Poll script: the i-th Ready poll transfers at most sizes[i] bytes (then whole requests); with
 //! <with_pending> = 1 every transfer is preceded by a Pending poll.
 //!
-//! The async GZI reader allocates `Vec::with_capacity(count)`: a count of 2^59 or more panics
-//! (capacity overflow, an observation); a count in 2^20 .. 2^59 would ask the allocator for 16 MiB ..
-//! 8 EiB and may abort the process, so the generator never produces one and `run` refuses it.
+//! Until /repo f641783 the async GZI reader allocated `Vec::with_capacity(count)`: a count of 2^59 or
+//! more panicked (capacity overflow, tag async-gzi-reader-count-capacity-overflow-panic -- kept, a
+//! recurrence is a new failure); a count in 2^20 .. 2^59 would ask the allocator for 16 MiB .. 8 EiB and
+//! may abort the process if the pre-allocation ever comes back, so the generator still never produces one
+//! and `run` refuses it.  The BAI tags async-bai-reader-error-kind-differs and
+//! async-bai-reader-negative-chunk-count-error-kind-differs (repaired by d76b74b) are kept likewise.
 
 use std::sync::atomic::Ordering;
 
